@@ -21,6 +21,7 @@ import SE.Gen.TieLine
 import SE.Gen.TieMapper
 import SE.Gen.TieRegistry
 import SE.Gen.TieRelay
+import SE.Gen.TieSync
 import SE.Proofs.QueueDriver
 import SE.Model.Exporter
 import SE.Driver.Pipe
